@@ -819,7 +819,12 @@ class Client(ClientLike):
 
         # Note: Ignore the sync check if header.version is not filled in
         # This can removed once all clients support this field.
-        if sync_check and header.version != 0 and header.version != data.type_hash:
+        # (a definition without a hash of its own - a v1 message def - has nothing to compare with)
+        if (
+            sync_check
+            and header.version != 0
+            and header.version != getattr(data, "type_hash", header.version)
+        ):
             _ = self._drain(header.num_data_bytes)
             raise InvalidMessageDefinition(
                 f"Received message header indicating a message version that does not match the expected version of message type {data.type_name}. Message definitions may be out of sync across systems."
